@@ -702,6 +702,35 @@ func c06ThirdPartyRun(r *sim.Run) {
 	if err != nil {
 		panic(sim.HarnessAbort{Msg: "third-party file not demuxable by the reference: " + err.Error()})
 	}
+	if t.Chance(350) {
+		// key-rotation style: two pssh boxes of different sizes in every moof (byte surgery, validated against the
+		// reference demuxer: every sample must still be found with the same bytes)
+		if nd, err := work.InsertMoofPssh(cf.Data); err == nil {
+			d2, err := ref.DemuxStream(nd, trex)
+			if err != nil || len(d2.Fragments) != len(before.Fragments) {
+				panic(sim.HarnessAbort{Msg: fmt.Sprintf("pssh-in-moof variant of %s is not consistent: %v", tp.name, err)})
+			}
+			for i := range d2.Fragments {
+				for ti := range d2.Fragments[i].Tracks {
+					a, b := before.Fragments[i].Tracks[ti].Samples, d2.Fragments[i].Tracks[ti].Samples
+					for k := range a {
+						if k >= len(b) || !bytes.Equal(a[k].Bytes(encStream), b[k].Bytes(nd)) {
+							panic(sim.HarnessAbort{Msg: fmt.Sprintf("pssh-in-moof variant of %s moved sample bytes", tp.name)})
+						}
+					}
+				}
+			}
+			encStream, before = nd, d2
+			if f, err = decodeWith(r, tp.name+"+pssh-in-moof", nd, viaSR, cfg); err != nil {
+				r.Violate("c06-third-party", "%s with pssh boxes in every moof does not decode: %v", tp.name, err)
+				return
+			}
+			if f.Init != nil {
+				init = f.Init
+			}
+			r.Probe("third-party-pssh-in-moof")
+		}
+	}
 	var di mp4.DecryptInfo
 	r.Guard("DecryptInit", func() { di, err = mp4.DecryptInit(init) })
 	if err != nil {
@@ -750,10 +779,24 @@ func c06ThirdPartyRun(r *sim.Run) {
 				if as[k].Bytes(s.Buf) == nil {
 					r.Violate("c06-third-party", "%s fragment %d sample %d: data offset points outside the file after decryption", tp.name, i, k)
 				}
+				// decryption is in place: a sample stays where it was inside its media data box
+				if ra, rb := c06RelOff(before, bs[k].Offset), c06RelOff(after, as[k].Offset); ra < 0 || ra != rb {
+					r.Violate("c06-third-party-offset", "%s fragment %d track %d sample %d: %d bytes into its mdat payload before decryption, %d after", tp.name, i, bf.Tracks[ti].TrackID, k, ra, rb)
+				}
 			}
 		}
 	}
 	r.Probe("third-party:" + tp.name)
+}
+
+// c06RelOff: offset of an absolute position relative to the payload of the top-level mdat box holding it (-1: none).
+func c06RelOff(d *ref.Demux, off int64) int64 {
+	for _, b := range d.Top {
+		if b.Type == "mdat" && off >= b.Payload() && off <= b.End() {
+			return off - b.Payload()
+		}
+	}
+	return -1
 }
 
 func init() {
